@@ -22,6 +22,8 @@ def run(rep, prog, tier):
     sibling_resets(rep, prog, "C13-R4")
     rep.rule("C13-R5", "sticky end: when `seek` / `seek_danger` of a docset that keeps cursor state besides its current doc (fields that advance() reads and a moving method writes) stores TERMINATED into the current doc, the same path also writes a cursor field or goes through a moving method of self — unless advance() starts by testing the current doc against TERMINATED. Otherwise the next advance() resumes from the old cursor: 'once the end is reached every further call keeps reporting the end'")
     sticky_end(rep, prog, "C13-R5")
+    rep.rule("C13-R6", "counting after the end is 0: `advance()` may be called again on a docset that already answered TERMINATED, and the cursor of a posting list then keeps moving through the TERMINATED padding of its last block; so an override of DocSet::count_including_deleted that computes the count in closed form (a subtraction on cursor / skip-list state) must first test for TERMINATED — the overrides that count by iterating, or delegate, are fine")
+    count_after_end(rep, prog, "C13-R6")
     forwarding(rep, prog, "C13-R3")
 
 
@@ -182,6 +184,31 @@ def sibling_resets(rep, prog, R):
                       "(a cache of the current document's data) survives the move, the docset answers for the new document with the old document's data"
                       % (ty, m, ", self".join(missing)), site=prog.bodies[ms[m]].span)
     rep.floor(R, "DocSet types whose advance and seek reset a common field", n_types, 6)
+
+
+def count_after_end(rep, prog, R):
+    """counting a docset that already ended gives 0, whatever its cursor did after the end"""
+    from ..rules import dominating_guards
+    TERM = "2147483647"
+    n = 0
+    for fid, b in sorted(prog.bodies.items()):
+        m = re.match(r"^<(.+) as tantivy::docset::DocSet>::count_including_deleted$", fid)
+        if not m:
+            continue
+        n += 1
+        subs = [bi for bi in b.normal_blocks() if b.term(bi)["k"] == "assert" and "Overflow(Sub)" in str(b.term(bi).get("msg"))]
+        for bi in subs:
+            guarded = False
+            for sb, through, gl in dominating_guards(b, bi):
+                lv = provenance(b, gl)
+                if any(x[0] in ("const", "uneval") and (str(x[1]) == TERM or "TERMINATED" in str(x[1])) for x in lv):
+                    guarded = True
+            rep.check(guarded, R, "%s::count_including_deleted subtracts cursor state only before the end" % m.group(1).split("<")[0].split("::")[-1], "dominated by a TERMINATED test",
+                      "`%s` computes its count with a subtraction on cursor state that no test against TERMINATED dominates: `advance()` may legally be called again after the end (it keeps answering TERMINATED) and moves "
+                      "the cursor through the padding of the last block — the count then underflows (panic in debug builds, 4294967295 in release) instead of being 0" % fid, site=site(b, bi))
+        if not subs:
+            rep.ok(R, "%s::count_including_deleted has no closed-form subtraction" % m.group(1).split("<")[0].split("::")[-1], "counts by iterating or delegates", site=b.span)
+    rep.floor(R, "count_including_deleted overrides examined", n, 6)
 
 
 def sticky_end(rep, prog, R):
